@@ -1,11 +1,14 @@
 package mon
 
 import (
+	"context"
 	"fmt"
 	"math/rand"
 
 	"github.com/herohde/morlock/pkg/board"
 	"github.com/herohde/morlock/pkg/board/fen"
+	"github.com/herohde/morlock/pkg/eval"
+	"github.com/herohde/morlock/pkg/search"
 
 	"verif/adapt"
 	"verif/fw"
@@ -34,6 +37,7 @@ func walkCases(tier string, seed int64, div int) []fw.Case {
 		l = mkCases(l, "synthtree", 32, seed, pick(tier, 40, 3000/div))
 		l = mkCases(l, "playout", 32, seed, pick(tier, 25, 2500/div))
 		l = mkCases(l, "tactic", 16, seed, pick(tier, 100, 5000/div))
+		l = mkCases(l, "shared", 8, seed, pick(tier, 12, 1200/div))
 		return l
 	}
 }
@@ -46,7 +50,7 @@ func init() {
 		Level:     "exploration",
 		Technique: "runtime differential oracle: lock-step tree walk (differential perft) and random playouts against an independent mailbox rules implementation",
 		Rule: "every node of full legal game trees (curated roots incl. the six published perft positions, depth 2-3 quick / 3-4 thorough; synthetic odd-material roots depth 1-2), " +
-			"every ply of random playouts and constructed tactical shapes; at each node the legal (from,to,promotion) multiset and each move's kind/piece/capture are compared with the oracle; distinct = distinct position keys (placement, side, rights, e.p.)",
+			"every ply of random playouts and 14 constructed tactical shapes (pins, double check, e.p. exposing the king along the rank or a diagonal, castling under attack ...); shared: walks repeated after each of the four engines' searches/filters ran in the same process (package-level piece lists compared with their start-up contents); at each node the legal (from,to,promotion) multiset and each move's kind/piece/capture are compared with the oracle; distinct = distinct position keys (placement, side, rights, e.p.)",
 		Assumptions: []string{"reference rules implementation (package ref), validated against published perft numbers at start-up", "2^-64 hash collisions in the distinct-position counter ignored"},
 		Setup:       validateOracle,
 		Timeout:     minutes(10, 90),
@@ -55,7 +59,7 @@ func init() {
 			return map[string]int64{
 				"positions": 20000, "in_check": 500, "double_check": 5, "pinned_piece_positions": 100,
 				"ep_legal": 20, "ep_illegal_by_check": 1, "castle_legal": 50, "castle_blocked_by_attack": 10,
-				"promotions": 100, "capture_promotions": 20, "stalemate": 1, "checkmate": 1, "perft_checks": 18,
+				"promotions": 100, "capture_promotions": 20, "stalemate": 1, "checkmate": 1, "perft_checks": 18, "shared_walks": 100, "shared_roots_with_ep": 3, "shared_roots_with_promotion": 3,
 			}
 		},
 		Run: func(c *fw.Ctx, cs fw.Case) { runWalk(c, cs, false) },
@@ -64,7 +68,7 @@ func init() {
 		ID:          "C02",
 		Level:       "exploration",
 		Technique:   "runtime differential oracle + internal-consistency invariants checked at every ply of lock-step tree walks and long playouts",
-		Rule:        "every edge (position, legal move) of the same walks as C01 plus long histories: successor compared with the oracle on all 64 squares, per-piece/per-colour/occupancy sets, rotated occupancy rebuilt from scratch, castling rights, e.p. target, attack queries on 64 squares x 2 colours (sampled), FEN; the source position is value-compared before/after; illegal attempts must leave it untouched; distinct = distinct (position key, move) edges",
+		Rule:        "every edge (position, legal move) of the same walks as C01 (incl. the walks run after the four engines have searched in the same process) plus long histories: successor compared with the oracle on all 64 squares, per-piece/per-colour/occupancy sets, rotated occupancy rebuilt from scratch, castling rights, e.p. target, attack queries on 64 squares x 2 colours (sampled), FEN; the source position is value-compared before/after; illegal attempts must leave it untouched; distinct = distinct (position key, move) edges",
 		Assumptions: []string{"reference rules implementation (package ref), validated against published perft numbers at start-up"},
 		Setup:       validateOracle,
 		Timeout:     minutes(10, 90),
@@ -72,12 +76,32 @@ func init() {
 		Floors: func(string) map[string]int64 {
 			return map[string]int64{
 				"edges": 20000, "edge_castle": 50, "edge_ep": 20, "edge_promotion": 100, "edge_rook_captured_on_home_with_right": 5,
-				"edge_jump": 500, "rights_lost_transitions": 100, "illegal_attempts": 500,
+				"edge_jump": 500, "rights_lost_transitions": 100, "illegal_attempts": 500, "shared_walks": 100, "shared_roots_with_ep": 3, "shared_roots_with_promotion": 3,
 			}
 		},
 		Run: func(c *fw.Ctx, cs fw.Case) { runWalk(c, cs, true) },
 	})
 }
+
+// pieceLists: the exported piece lists of package board as they read at start-up.
+var pieceLists = func() []struct {
+	name string
+	cur  *[]board.Piece
+	want string
+} {
+	l := []struct {
+		name string
+		cur  *[]board.Piece
+		want string
+	}{
+		{"AllPieces", &board.AllPieces, ""}, {"KingQueen", &board.KingQueen, ""}, {"KingQueenRookKnightBishop", &board.KingQueenRookKnightBishop, ""},
+		{"QueenRookBishop", &board.QueenRookBishop, ""}, {"QueenRookKnightBishop", &board.QueenRookKnightBishop, ""}, {"QueenRookKnightBishopPawn", &board.QueenRookKnightBishopPawn, ""},
+	}
+	for i := range l {
+		l[i].want = fmt.Sprint(*l[i].cur)
+	}
+	return l
+}()
 
 func runWalk(c *fw.Ctx, cs fw.Case, succ bool) {
 	r := cs.Rand()
@@ -148,6 +172,55 @@ func runWalk(c *fw.Ctx, cs fw.Case, succ bool) {
 				plies = 300
 			}
 			walkPlayout(c, r, h.Start, plies, gen.Biases[i%len(gen.Biases)], succ)
+		}
+	case "shared":
+		// Positions are values; the engines (searches, evaluators, move filters of all four programs) run in
+		// the same process and read the same package-level tables. After each of them has worked on a
+		// position, every other position must still be played and queried exactly as the rules say.
+		ctx := context.Background()
+		for i := 0; i < cs.N; i++ {
+			rc := &recipes[(i+cs.Idx)%len(recipes)]
+			root := gen.TacticOK(r, []int{2, 3, 6, 6, 13, 4, 9}[r.Intn(7)])
+			if r.Intn(3) == 0 {
+				h := randomHist(r, r.Intn(40))
+				root = ref.NewGameFrom(h.Start, h.Moves).Cur
+			}
+			if b, ok := boardOf(gen.Hist{Start: root}); ok && len(root.LegalMoves()) > 0 {
+				d := 1 + r.Intn(2)
+				sctx := &search.Context{Alpha: eval.NegInfScore, Beta: eval.InfScore, TT: search.NoTranspositionTable{}, Noise: eval.Random{}}
+				rc.build(idWrap).Search(ctx, sctx, b, d)
+				c.Count("shared_engine_runs_"+rc.name, 1)
+				for _, m := range root.LegalMoves() {
+					if m.Kind == ref.KEnPassant {
+						c.Count("shared_roots_with_ep", 1)
+						break
+					}
+					if m.Promo != 0 {
+						c.Count("shared_roots_with_promotion", 1)
+						break
+					}
+				}
+			}
+			for _, l := range pieceLists {
+				if fmt.Sprint(*l.cur) != l.want {
+					c.Violate("shared:piece-list", "after a %s search on %q the package-level piece list board.%s reads %v, it was %v at start-up", rc.name, root.FEN(), l.name, *l.cur, l.want)
+				}
+			}
+			// kings and pawns close to each other: the attacks that matter for legality
+			for k := 0; k < 3; k++ {
+				p := gen.TacticOK(r, []int{10, 11, 4, 5, 13, 0}[r.Intn(6)])
+				if k == 0 {
+					if q, ok := gen.BoxedKing(r); ok {
+						p = q
+					}
+				}
+				pos, err := adapt.Position(p)
+				if err != nil {
+					continue
+				}
+				walkTree(c, p, pos, 1, succ)
+				c.Count("shared_walks", 1)
+			}
 		}
 	case "tactic":
 		for i := 0; i < cs.N; i++ {
